@@ -19,6 +19,14 @@
 (* At the end every request of the burst must have been answered "ok" with *)
 (* its own payload: excess load waits, it is not dropped.                  *)
 (*                                                                         *)
+(* AbortedWait: a request whose caller gave up (`drop`: its client was      *)
+(* closed while the request waited for request memory) never enters a      *)
+(* handler; when the server tears its connection down (`abort`) the wait   *)
+(* is aborted and, by HeldAfterAbort of RpcLimits (RpcCalls: RecvAbort),   *)
+(* nothing is given back to the semaphore: the accounted memory sampled at *)
+(* that moment and later still covers every running handler, and requests  *)
+(* admitted afterwards are still subject to MemAdmits.                     *)
+(*                                                                         *)
 (* HandleInline: with MaxWorkers = 0 the handler runs on the connection's  *)
 (* receive goroutine; the bound is then the number of connections.         *)
 (***************************************************************************)
@@ -28,11 +36,12 @@ CONSTANTS MaxWorkers, MemLimit, BufSize, Conns, HdrLen
 
 Trace == ndJsonDeserialize("trace.ndjson")
 
-VARIABLES l, started, run, take, done, returned
+VARIABLES l, started, run, take, done, returned, dropped, aborted
 
-vars == <<l, started, run, take, done, returned>>
+vars == <<l, started, run, take, done, returned, dropped, aborted>>
 
-TInit == l = 1 /\ started = {} /\ run = {} /\ take = <<>> /\ done = {} /\ returned = {} /\ TLCSet(1, 0)
+TInit == /\ l = 1 /\ started = {} /\ run = {} /\ take = <<>> /\ done = {} /\ returned = {}
+         /\ dropped = {} /\ aborted = {} /\ TLCSet(1, 0)
 
 RECURSIVE Sum(_, _)
 Sum(f, S) == IF S = {} THEN 0 ELSE LET x == CHOOSE x \in S : TRUE IN f[x] + Sum(f, S \ {x})
@@ -41,11 +50,11 @@ Held(S) == Sum(take, S)
 Cap == IF MaxWorkers > 0 THEN MaxWorkers ELSE Conns
 
 PStart(e) == /\ e.id \notin started /\ started' = started \cup {e.id}
-             /\ UNCHANGED <<run, take, done, returned>>
+             /\ UNCHANGED <<run, take, done, returned, dropped, aborted>>
 
 PEnter(e) ==
   LET t == TakeOf(e.len + HdrLen, BufSize) IN
-  /\ e.id \in started /\ e.id \notin run /\ e.id \notin done
+  /\ e.id \in started /\ e.id \notin run /\ e.id \notin done /\ e.id \notin aborted
   /\ WorkerAvailable(Cardinality(run), 0, Cap)                  \* Running < MaxWorkers
   /\ MemAdmits(Held(run), t, MemLimit)                          \* (handlers running) x taken <= limit
   /\ run' = run \cup {e.id}
@@ -54,28 +63,44 @@ PEnter(e) ==
   /\ e.mem >= Held(run) + t /\ e.mem <= MemLimit                \* server-side accounted memory
   /\ e.limit = MemLimit
   /\ e.workers <= (IF MaxWorkers > 0 THEN MaxWorkers ELSE 1)
-  /\ UNCHANGED <<started, done, returned>>
+  /\ UNCHANGED <<started, done, returned, dropped, aborted>>
 
 PExit(e) ==
   /\ e.id \in run /\ e.out = "ok"
   /\ run' = run \ {e.id} /\ done' = done \cup {e.id}
   /\ e.running = Cardinality(run')
   /\ e.mem >= Held(run) /\ e.mem <= MemLimit                    \* released only after the handler
-  /\ UNCHANGED <<started, take, returned>>
+  /\ UNCHANGED <<started, take, returned, dropped, aborted>>
 
 PSample(e) ==
   /\ e.running = Cardinality(run)
   /\ e.mem >= Held(run) /\ e.mem <= MemLimit
-  /\ UNCHANGED <<started, run, take, done, returned>>
+  /\ UNCHANGED <<started, run, take, done, returned, dropped, aborted>>
 
 PRet(e) ==
-  /\ e.id \in done /\ e.id \notin returned
-  /\ e.res = "ok" /\ e.got = e.id                               \* served, with its own payload, no error
+  /\ e.id \notin returned
+  /\ IF e.id \in dropped
+     THEN e.id \notin done /\ e.res = "closedSE"                 \* the caller closed its client while the request waited
+     ELSE e.id \in done /\ e.res = "ok" /\ e.got = e.id          \* served, with its own payload, no error
   /\ returned' = returned \cup {e.id}
-  /\ UNCHANGED <<started, run, take, done>>
+  /\ UNCHANGED <<started, run, take, done, dropped, aborted>>
+
+(* the caller abandons a request that has not reached a handler *)
+PDrop(e) ==
+  /\ e.id \in started /\ e.id \notin run /\ e.id \notin done
+  /\ dropped' = dropped \cup {e.id}
+  /\ UNCHANGED <<started, run, take, done, returned, aborted>>
+
+(* the server has torn down the connection of a dropped request: its wait for memory is aborted *)
+PAbort(e) ==
+  /\ e.id \in dropped /\ e.id \notin aborted
+  /\ aborted' = aborted \cup {e.id}
+  /\ e.running = Cardinality(run)
+  /\ e.mem >= HeldAfterAbort(Held(run), TakeOf(HdrLen, BufSize)) /\ e.mem <= MemLimit
+  /\ UNCHANGED <<started, run, take, done, returned, dropped>>
 
 PEnd == /\ returned = started /\ run = {}
-        /\ UNCHANGED <<started, run, take, done, returned>>
+        /\ UNCHANGED <<started, run, take, done, returned, dropped, aborted>>
 
 Mark(n) == TLCSet(1, IF n > TLCGet(1) THEN n ELSE TLCGet(1))
 
@@ -87,7 +112,9 @@ TNext ==
        \/ e.ev = "exit" /\ PExit(e)
        \/ e.ev = "sample" /\ PSample(e)
        \/ e.ev = "ret" /\ PRet(e)
-       \/ e.ev \in {"close", "closed"} /\ UNCHANGED <<started, run, take, done, returned>>
+       \/ e.ev = "drop" /\ PDrop(e)
+       \/ e.ev = "abort" /\ PAbort(e)
+       \/ e.ev \in {"close", "closed", "shutdown"} /\ UNCHANGED <<started, run, take, done, returned, dropped, aborted>>
        \/ e.ev = "end" /\ PEnd
   /\ Mark(l)
   /\ l' = l + 1
